@@ -27,10 +27,11 @@ class parse_response(Contract):
     props = ('C17',)
     doc = ('parse_response: a ControlResponse is decoded into its status code, status text and the fields of its body (all None '
            'when the response has no body); only documented decoding errors are raised')
-    raises = {e: (lambda cx, buf: True) for e in DOCUMENTED}
+    raises = {**{e: (lambda cx, buf: isinstance(buf, View)) for e in DOCUMENTED}, TypeError: lambda cx, buf: not isinstance(buf, View)}
 
     def setup(self, cx):
-        return dict(buf=cx.run.input_buf('buf', 'bytes'))
+        k = cx.run.choose([('bytes', True), ('None', True)], 'buf')
+        return dict(buf=cx.run.input_buf('buf', 'bytes') if k == 'bytes' else None)
 
     def post(c, cx, result, buf):
         ok = isinstance(result, dict) and 'status_code' in result and 'status_text' in result
@@ -84,6 +85,7 @@ class RegApp:
         self.run, self.sem = run, sem
         self.face = Face(run, True)
         self.calls = []
+        self.sig_times = []
 
     def getattr_(self, it, name, node):
         if name == 'face':
@@ -91,6 +93,8 @@ class RegApp:
         if name == 'express':
             def express(it_, *a, **kw):
                 self.calls.append((a, kw, self.sem.held))
+                # the Interest is built and signed synchronously inside express(): SignatureTime = the clock now
+                self.sig_times.append(it_.run.ghost['clock'].read())
 
                 def thunk():
                     run = it_.run
@@ -98,7 +102,9 @@ class RegApp:
                     if tag != 'reply':
                         raise PyExc(tag, ('no usable reply',), getattr(node, 'lineno', None), it_.where())
                     run.ghost['reg.replied'] = True
-                    return (Opaque('token', 'dname'), run.input_buf('reply', 'bytes'), Opaque('token', 'ctx'))
+                    ck = run.choose([('content', True), ('no content', True)], 'reply content')
+                    return (Opaque('token', 'dname'), run.input_buf('reply', 'bytes') if ck == 'content' else None,
+                            Opaque('token', 'ctx'))
                 return CoroVal(thunk, 'express')
             return _M(express)
         raise Unsupported(f'app.{name}')
@@ -169,6 +175,9 @@ class _RegBase(Contract):
             out['command_names_this_prefix'] = ok and cmd.d['module'] == 'rib' and cmd.d['command'] == c.command and \
                 cmd.d['kwargs'].get('name') is name and cmd.d['face'] is app.face
             out['signed_interest_format'] = kw.get('app_param') is not None and kw.get('signer') is not None
+            st = app.sig_times[0]
+            out['signature_time_after_previous_command'] = zint(st) > zint(g['last0'])
+            out['next_command_will_be_later_than_this_signature_time'] = zint(self.d['_last_command_timestamp']) >= zint(st)
         return out
 
 
